@@ -22,6 +22,7 @@ type Options struct {
 	Deadline    time.Time     // wall-clock budget checked between executions (zero = none)
 	Sleep       bool          // unbounded exploration with sleep sets (partial-order reduction); requires Bound < 0
 	Replay      []int         // when set: run exactly this schedule (twice) and return
+	Once        bool          // with Replay: run it once only (crash children die inside the run)
 	OnExecution func(x *Exec) // oracle, runs after the bubble finished (x.Log, x.Trace available)
 }
 
@@ -79,7 +80,7 @@ func Explore(t *testing.T, opt Options, body func(x *Exec)) *Result {
 		res: &Result{Name: opt.Name, Bound: opt.Bound, Outcomes: map[string]int{}, Exhaustive: true}}
 	if opt.Replay != nil {
 		x1 := e.run(opt.Replay, nil)
-		if e.res.InfraErr != nil {
+		if e.res.InfraErr != nil || opt.Once {
 			return e.res
 		}
 		x2 := e.run(opt.Replay, nil)
